@@ -109,6 +109,26 @@ func (m *MonC02) OnReq(w *World, r *Req) {
 		return
 	}
 	if strategy == "native" {
+		// plain PKO owners (former controllers waiting for their own teardown) survive the writes of others
+		for _, o := range Owners(r.Before, strategy) {
+			if o.Group != PKOGroup || o.Controller || o.Is(owner) {
+				continue
+			}
+			still := false
+			for _, a := range Owners(r.After, strategy) {
+				if a.UID == o.UID {
+					still = true
+				}
+			}
+			if !still {
+				if ow, ok := w.Cluster(r.Cluster).Objs[store.Key{Group: o.Group, Kind: o.Kind, Namespace: store.Str(owner, "metadata", "namespace"), Name: o.Name}]; ok && store.Str(ow, "metadata", "uid") == o.UID {
+					m.touch()
+					w.Report(Violation{Property: "C02", Rule: "owners-kept", Sig: "plain-owner-dropped/" + shortSite(r.Site) + "/" + staleTag(p, r), Seq: r.Seq,
+						Msg: fmt.Sprintf("pass %d of %s %s wrote %s and dropped the plain owner %s/%s, which still exists and has not torn the object down itself: owners before %v, after %v", p.ID, p.Ctrl, p.Key, r.Key(), o.Kind, o.Name, Owners(r.Before, strategy), Owners(r.After, strategy))})
+					return
+				}
+			}
+		}
 		// former PKO controllers stay as plain owners
 		for _, c := range Controllers(r.Before, strategy) {
 			if c.Group != PKOGroup {
